@@ -109,12 +109,29 @@ EXTRA5 = {
  "C09": " Position independence over long inputs: 456 strings (every single byte, all pairs over 14 boundary bytes, runes and truncated runes) after n repetitions of each of 6 units (plain byte, 2-byte escape, 6-byte escape, 2-byte rune, invalid byte, quote) for EVERY n in 0..300 (thorough 1100): the output equals the concatenation of the parts' escapes, so any staging buffer of up to 256 (1024) bytes is crossed at every alignment.",
  "C10": " Histories: the built-in logger after a configuration with a range below/at/above the event's level was live and destroyed; a sync (async) logger after an async (sync) configuration with the opposite verdict for the level: 28000 cases.",
  "C11": " Two goroutines reaching the SAME cold / warm call site together, with a scheduling point after every publishing atomic / sync.Map operation (P<=2, thorough 3).",
- "C16": " Explicit-state breadth-first search over the real package (c16/reachable-states): a state is identified by a canonical deep hash of everything reachable from the package-level variables plus the model state; every (state, operation) transition runs the full oracle, each Refresh under all 6 iteration orders of maps of <=3 keys; the search reaches a FIXPOINT (52 states, no new state after depth 5), i.e. every sequence of any length ends in an expanded state (up to the stated abstraction: pool/cache/channel contents and closure variables are not part of the identity); 24679 unpruned sequences of length <=3 are cross-checked to end in expanded states.",
+ "C16": " Explicit-state breadth-first search over the real package (c16/reachable-states): a state is identified by a canonical deep hash of everything reachable from the package-level variables plus the model state; every (state, operation) transition runs the full oracle, each Refresh under all 6 iteration orders of maps of <=3 keys; the search reaches a FIXPOINT (no new state after depth 5), i.e. every sequence of any length ends in an expanded state (up to the stated abstraction: pool/cache/channel contents and closure variables are not part of the identity); unpruned sequences of length <=3 are cross-checked to end in expanded states.",
  "C18": " Registry growth: 1100 distinct valid names registered in sequence; at 40 checkpoints around every power of two all earlier names are registered again (pointer identity with the first registration) and GetAllTags is the exact set; after a Refresh the tags handed out first are served by the configured logger.",
  "C19": " Long outages: one writer, intervals of 1 s / 1 min / 1 h, up to 4 (thorough 5) consecutive boundaries at which the creation fails, the clock landing on or just after the boundary: a creation is attempted at every later boundary.",
  "C20": " Two threads with an interval boundary crossed at any clock read and the crash at any point (P<=1, thorough P<=2 and two boundaries).",
 }
-for e in (EXTRA, EXTRA5):
+# round 6
+EXTRA6 = {
+ "C01": " Rolling-file logger family: 11 logger ranges (lower bound below / at / above WARN, bounded and unbounded) x separate on/off x sync/async, one event per level through the public entry points on the in-memory filesystem (P<=1): each event in exactly one of the normal / .wf files iff the logger's range contains its level.",
+ "C02": " Every 1- and 2-logger configuration also with its tag lists given through ${property} placeholders (same verdict, same routing).",
+ "C03": " The events carry scalar, array and nested-object fields (every encoder path).",
+ "C04": " Zero-length raw writes (nil, empty, buf[:0]) among the other items, free worker and nearly full buffer: counted in the conservation equation, delivered like any payload.",
+ "C05": " Zero-length raw writes before a Stop that races the drain.",
+ "C06": " Zero-length raw writes among events and raw writes (order, policies).",
+ "C07": " Pairs of a bad and a good value of one top-level type (map[string]any / []any / struct with an interface field / pointer, reaching a func or chan only for some values).",
+ "C10": " Scheduler scenarios: an asynchronous logger (3 policies) whose buffer has overflowed behind a parked worker, then two goroutines logging together: every delivered record carries the hook results of ITS call, hooks ran once per call (P<=2). The pool shim ends an execution in which an object is put back while it is already in the pool.",
+ "C12": " Zero-length raw writes through the asynchronous logger.",
+ "C14": " Every third population once more with Append calls whose event time is 90 min / 36 h ahead of or 3 h behind the clock: the cut-off stays 'clock - max age'.",
+ "C15": " Totality also for placeholders that lead to placeholders (self-reference, cycles of two and three properties, a chain ending in a missing key) on every attribute: Refresh returns.",
+ "C16": " The alphabet has a 13th operation: a valid configuration whose START phase fails (an asynchronous logger refuses its buffer size after other plugins have been started). The breadth-first search adds three operations of its own (file-owning loggers incl. an asynchronous rolling-file logger on a real directory, all 15 entry points, an invalid registration): fixpoint of 68 states; 62 k unpruned sequences cross-checked.",
+ "C18": " Every Unicode code point U+0000..U+10FFFF at four positions of valid tags and tripled on its own (the language is ASCII only).",
+ "C20": " The rolling-file LOGGER kind (owns its appenders) with and without a separate .wf file, INFO and ERROR events, both layouts.",
+}
+for e in (EXTRA, EXTRA5, EXTRA6):
     for k, v in e.items():
         CHECKS[k]["text"] += v
 CHECKS["C15"]["note"] = CHECKS["C15"]["note"].replace("Trusted: the deviation table (expected defaults) in harness/enum/c15.go.", "Trusted: the deviation table in harness/enum/c15.go (expected defaults of integer/boolean/word attributes are read from the live plugin's struct tag, so a tree that declares other defaults is not an alarm).")
@@ -132,7 +149,7 @@ m = {
   "add_only": True,
  },
  "engines": [
-  {"name": "zzvrt", "path": "vrt/", "serves_properties": ["C03","C04","C05","C06","C12","C13","C14","C19","C20"],
+  {"name": "zzvrt", "path": "vrt/", "serves_properties": ["C01","C03","C04","C05","C06","C10","C11","C12","C13","C14","C15","C19","C20"],
    "kind_free_text": "hand-written stateless model checker for Go: cooperative scheduler + preemption/deviation-bounded DFS over choice prefixes, shims for channels/select/sync/atomic/os/time, virtual clock and in-memory filesystem with fault and crash injection"},
   {"name": "enum", "path": "harness/enum/", "serves_properties": ["C01","C02","C07","C08","C09","C10","C11","C12","C15","C16","C17","C18"],
    "kind_free_text": "bounded-exhaustive enumeration harness: complete enumeration of configurations / inputs / operation sequences within stated bounds on the real package (plus in-package accessors by overlay), compared with reference models written in Go"},
